@@ -4,6 +4,8 @@ passlib.utils.binary - binary data encoding/decoding/manipulation
 
 from __future__ import annotations
 
+import threading
+
 from base64 import (
     b32decode as _b32decode,
 )
@@ -833,6 +835,7 @@ class LazyBase64Engine(Base64Engine):
     _lazy_opts = None
 
     def __init__(self, *args, **kwds):
+        self._lazy_lock = threading.RLock()
         self._lazy_opts = (args, kwds)
 
     def _lazy_init(self):
@@ -843,7 +846,11 @@ class LazyBase64Engine(Base64Engine):
 
     def __getattribute__(self, attr):
         if not attr.startswith("_"):
-            self._lazy_init()
+            # NOTE: a second thread arriving during initialization waits here, and then finds
+            #       the options gone (class switched) instead of initializing a second time.
+            with object.__getattribute__(self, "_lazy_lock"):
+                if self._lazy_opts is not None:
+                    self._lazy_init()
         return object.__getattribute__(self, attr)
 
 
